@@ -358,6 +358,15 @@ fn judge(log: &[Ev], top: Out) -> Result<(), String> {
 }
 
 fn check(case: &Case, st: &mut Stats) -> Result<(), String> {
+    // the scope implementation contains unsafe code (lifetime erasure): if it ever returned while tasks
+    // still run, the process may die; the case being executed is kept for the crash handler
+    common::crashdump::set_current(&serde_json::to_vec(&serde_json::json!({"property": "C17", "part": "scopes", "reason": "the process died (SIGSEGV/SIGABRT) while executing this case", "case": case})).unwrap());
+    let r = check_inner(case, st);
+    common::crashdump::clear_current();
+    r
+}
+
+fn check_inner(case: &Case, st: &mut Stats) -> Result<(), String> {
     det::run(|| async {
         let life = det::Life::new();
         let log: L = Arc::new(Mutex::new(Log::default()));
@@ -437,6 +446,7 @@ fn check(case: &Case, st: &mut Stats) -> Result<(), String> {
 
 pub fn main(env: &Env) -> i32 {
     env.arm_emergency();
+    common::crashdump::arm(&env.property);
     if let Mode::Replay(path) = env.mode() {
         let (_, case) = Env::read_replay(&path);
         return env.finish_replay(&path, common::replay_case::<Case>(case, check));
